@@ -489,6 +489,28 @@ def shape_glob_undeclared():
     }
 
 
+def shape_dir_glob():
+    """A pattern that enumerates directories (one step per case directory)."""
+    return {
+        "name": "dir_glob",
+        "sources": {"plan.py": ["v1"], "cases/c1/inp.txt": ["a", "b"], "cases/c2/inp.txt": ["a", "b"]},
+        "scripts": {
+            "./plan.py": {
+                "on": "plan.py",
+                "versions": {
+                    "v1": [
+                        ["tree", ["cases/"]],
+                        ["glob", "cases/${*c}/", {}, [["step", "D:{s}", {"inp": ["{m}inp.txt"], "out": ["res/{s}.txt"]}]]],
+                    ]
+                },
+            },
+            "D:c1": GENERIC_WORKER,
+            "D:c2": GENERIC_WORKER,
+            "D:c3": GENERIC_WORKER,
+        },
+    }
+
+
 def shape_resources():
     return {
         "name": "resources",
@@ -530,6 +552,7 @@ SHAPES = {
         shape_tree_glob,
         shape_nested_dirs,
         shape_glob_undeclared,
+        shape_dir_glob,
         shape_resources,
     )
 }
